@@ -726,6 +726,12 @@ func (vc *VC) havocVal(v Val, T types.Type, name string, st *State) Val {
 		ft := vc.freshTerm(name+".neverwritten", SBool)
 		st.Fact(Implies(ft, Eq(l, vc.idx(0))))
 		return BufferObj{Content: vc.freshTerm(name+".content", x.Content.S), Base: vc.idx(0), Len: l, FreshT: &ft}
+	case GhostImg:
+		n := GhostImg{Set: vc.freshTerm(name+".wasset", x.Set.S)}
+		for k := range x.Ch {
+			n.Ch[k] = vc.freshTerm(name+".lastset", x.Ch[k].S)
+		}
+		return n
 	case OnceObj:
 		// a Once only ever moves from not-done to done
 		d := vc.freshTerm(name+".done", SBool)
